@@ -19,6 +19,8 @@ def overlap(b, t, lay):
 
 
 class Sigma2Coeff(Contract):
+    parallel_paths = True   # one worker process per path (slow quantified obligations)
+    prefer_solver = 'z3-4.8.12'
     """coeff[lay, li] is the length (in source-layer index space) of the overlap of target layer li with source layer lay,
     for source/target grids of ARBITRARY size; b, t are the positions np.interp assigns to the two edges of the target layer"""
     prop = 'C17'
